@@ -348,8 +348,13 @@ def _sort_dependencies(
 
         else:
             if last_name == dependency.name:
-                order.append(last_name)
-                break
+                # Only this element is left and it still cannot be resolved:
+                # it (transitively) depends on itself
+                raise CircularDependencyError(
+                    missing={
+                        dependency.name: dependency.required.difference(available)
+                    }
+                )
             queue.put(dependency)
             last_name = dependency.name
         i += 1
